@@ -1081,8 +1081,8 @@ def r153_parse(pe, rep):
             if 'next' not in cur.fields:
                 complete = False; break
             cur = cur.fields['next']
-        if not chain:
-            continue
+        if not chain and complete:
+            continue            # the declarations produced an empty list on this path
         n += 1
         facts = {'path': ctx.trail[-8:], 'list': [repr(c) for c in chain]}
         ag.note('roots/whole-list-visited', complete, 'the marking loop of parse() stops before the end of `globals` (after %d objects): roots further down the list are never marked' % len(chain), fline, facts)
@@ -1093,8 +1093,10 @@ def r153_parse(pe, rep):
                 ag.note('roots/every-root-marked', marked, 'an object with is_root set is not passed to mark_live: a non-static-inline function (or one referenced at file scope) and everything it references would not be emitted', fline, facts)
             elif r == 0:
                 ag.note('roots/only-roots-marked', not marked, 'mark_live is started from an object whose is_root is false: unreferenced static inline functions are emitted', fline, facts)
+            elif marked:
+                ag.note('roots/only-roots-marked', False, 'mark_live is called for a list object without consulting is_root', fline, facts)
             else:
-                ag.note('roots/is_root-decides', not marked, 'mark_live is called for a list object without consulting is_root', fline, facts)
+                ag.note('roots/every-root-marked', False, 'a list object is passed over without consulting is_root: if it is a root, it and everything it references is not emitted', fline, facts)
         ag.note('tentative-scan/after-marking-result-returned', len(scans) == 1 and out[1] is ctx.c15_scanned,
                 'parse() does not return `globals` as left by scan_globals() (scan_globals called %d times, returns %r): redundant tentative definitions reach the code generator' % (len(scans), out[1]), fline, facts)
     if n == 0:
